@@ -28,12 +28,14 @@ inductive LV where
   | var (v : String)
   | x
   | y
+  | el (t : String) (i : Ix)        -- array element (stage 4)
   deriving Repr, DecidableEq, Inhabited
 
 def LV.ra : LV → RA
   | .var v => .of (.var v)
   | .x => .x
   | .y => .y
+  | .el t i => .of (.el t i)
 
 inductive RStmt where
   | asg (v : LV) (a : RA)
@@ -92,37 +94,53 @@ def storeA {α : Type} (none : α) (r : Atom → α) : LV → List (Mn × α)
   | .var v => [(.STA, r (.var v))]
   | .x => [(.TAX, none)]
   | .y => [(.TAY, none)]
+  | .el t i => [(.STA, r (.el t i))]
 
-def asgCode {α : Type} (none : α) (r : Atom → α) : LV → RA → List (Mn × α)
+/-- plain assignment (`generate_assign`). `zp t` = the array `t` lives in the zero page: only there does
+    `STY t,X` exist; an array subscripted by the register that is stored goes through A; `LDX t,X` and
+    `LDY t,Y` do not exist -/
+def asgCode {α : Type} (none : α) (r : Atom → α) (zp : String → Bool) : LV → RA → List (Mn × α)
   | .var v, .x => [(.STX, r (.var v))]
   | .var v, .y => [(.STY, r (.var v))]
   | .var v, .of a => [(.LDA, r a), (.STA, r (.var v))]
+  | .el t (.k n), .x => [(.STX, r (.el t (.k n)))]
+  | .el t (.k n), .y => [(.STY, r (.el t (.k n)))]
+  | .el t .x, .x => [(.TXA, none), (.STA, r (.el t .x))]
+  | .el t .x, .y => if zp t then [(.STY, r (.el t .x))] else [(.TYA, none), (.STA, r (.el t .x))]
+  | .el t .y, .x => [(.TXA, none), (.STA, r (.el t .y))]
+  | .el t .y, .y => [(.TYA, none), (.STA, r (.el t .y))]
+  | .el t i, .of a => [(.LDA, r a), (.STA, r (.el t i))]
   | .x, .x => []
   | .x, .y => [(.TYA, none), (.TAX, none)]
+  | .x, .of (.el t .x) => [(.LDA, r (.el t .x)), (.TAX, none)]
   | .x, .of a => [(.LDX, r a)]
   | .y, .y => []
   | .y, .x => [(.TXA, none), (.TAY, none)]
+  | .y, .of (.el t .y) => [(.LDA, r (.el t .y)), (.TAY, none)]
   | .y, .of a => [(.LDY, r a)]
 
-def binCode {α : Type} (none : α) (r : Atom → α) (v : LV) (op : BOp) (x y : RA) : List (Mn × α) :=
-  if orZeroReg op x y then asgCode none r v x
+def binCode {α : Type} (none : α) (r : Atom → α) (zp : String → Bool) (v : LV) (op : BOp) (x y : RA) : List (Mn × α) :=
+  if orZeroReg op x y then asgCode none r zp v x
   else loadA none r x ++ opCode none r op y ++ storeA none r v
 
+/-- `INC t,Y` does not exist: the element goes through A -/
 def incCode {α : Type} (none : α) (r : Atom → α) (inc : Bool) : LV → List (Mn × α)
   | .var v => [(if inc then .INC else .DEC, r (.var v))]
   | .x => [(if inc then .INX else .DEX, none)]
   | .y => [(if inc then .INY else .DEY, none)]
+  | .el t .y =>
+    loadA none r (.of (.el t .y)) ++ opCode none r (if inc then .add else .sub) (.of (.const 1)) ++ storeA none r (.el t .y)
+  | .el t i => [(if inc then .INC else .DEC, r (.el t i))]
 
-def rtemplate {α : Type} (none : α) (r : Atom → α) : RStmt → List (Mn × α)
-  | .asg v a => asgCode none r v a
-  | .bin v op a b => let p := rordered op a b; binCode none r v op p.1 p.2
-  | .opasg v op a => binCode none r v op v.ra a
+def rtemplate {α : Type} (none : α) (r : Atom → α) (zp : String → Bool) : RStmt → List (Mn × α)
+  | .asg v a => asgCode none r zp v a
+  | .bin v op a b => let p := rordered op a b; binCode none r zp v op p.1 p.2
+  | .opasg v op a => binCode none r zp v op v.ra a
   | .inc v => incCode none r true v
   | .dec v => incCode none r false v
 
-
-def rgenOps (L : Layout) (s : RStmt) : List (Mn × Opd) := rtemplate Opd.none (opd L) s
-def rgenText (s : RStmt) : List (Mn × String) := rtemplate "" text s
+def rgenOps (L : Layout) (zp : String → Bool) (s : RStmt) : List (Mn × Opd) := rtemplate Opd.none (opd L) zp s
+def rgenText (zp : String → Bool) (s : RStmt) : List (Mn × String) := rtemplate "" text zp s
 
 /-! ### the generator's belief about the flags after a statement -/
 
@@ -132,20 +150,27 @@ abbrev FRef := LV
 /-- STX / STY leave the flags alone: a belief about memory does not survive them (`forget_memory_flags`) -/
 def forgetMem : Option FRef → Option FRef
   | some (.var _) => none
+  | some (.el _ _) => none
   | f => f
 
-def asgFlags (fl : Option FRef) : LV → RA → Option FRef
+def asgFlags (zp : String → Bool) (fl : Option FRef) : LV → RA → Option FRef
   | .var _, .x | .var _, .y => forgetMem fl
   | .var v, .of _ => some (.var v)
+  | .el _ (.k _), .x | .el _ (.k _), .y => forgetMem fl
+  | .el _ .x, .x => some .x
+  | .el t .x, .y => if zp t then forgetMem fl else some .y
+  | .el _ .y, .x => some .x
+  | .el _ .y, .y => some .y
+  | .el t i, .of _ => some (.el t i)
   | .x, .x => fl
   | .x, _ => some .x
   | .y, .y => fl
   | .y, _ => some .y
 
-def flagsAfter (fl : Option FRef) : RStmt → Option FRef
-  | .asg v a => asgFlags fl v a
-  | .bin v op a b => let p := rordered op a b; if orZeroReg op p.1 p.2 then asgFlags fl v p.1 else some v
-  | .opasg v op a => if orZeroReg op v.ra a then asgFlags fl v v.ra else some v
+def flagsAfter (zp : String → Bool) (fl : Option FRef) : RStmt → Option FRef
+  | .asg v a => asgFlags zp fl v a
+  | .bin v op a b => let p := rordered op a b; if orZeroReg op p.1 p.2 then asgFlags zp fl v p.1 else some v
+  | .opasg v op a => if orZeroReg op v.ra a then asgFlags zp fl v v.ra else some v
   | .inc v | .dec v => some v
 
 /-! ### what the source prescribes, on memory and the two register variables -/
@@ -156,7 +181,7 @@ structure SrcSt where
   y : Byte
 
 def rval (L : Layout) (σ : SrcSt) : RA → Byte
-  | .of a => val L σ.mem a
+  | .of a => val L σ.mem σ.x σ.y a
   | .x => σ.x
   | .y => σ.y
 
@@ -165,6 +190,7 @@ def wr (L : Layout) (σ : SrcSt) (v : LV) (b : Byte) : SrcSt :=
   | .var n => { σ with mem := σ.mem.write (L n) b }
   | .x => { σ with x := b }
   | .y => { σ with y := b }
+  | .el t i => { σ with mem := σ.mem.write (elAddr L σ.x σ.y t i) b }
 
 /-- the scratch write the code performs for a register right operand -/
 def tmpWrite (L : Layout) (σ : SrcSt) (op : BOp) (y : RA) : SrcSt :=
